@@ -1,5 +1,6 @@
 import GoframeModel.Step
 import GoframeModel.Spec.Invalid
+import GoframeModel.Lemmas.NoPanic
 /-
   C20 — invalid requests produce errors, never panics, and leave frames untouched.
   The model's primitives are CHECKED (indexing, slicing, map-miss-then-field-access and type assertion
@@ -21,23 +22,26 @@ def IsApi : Op → Prop
 extreme indexes and counts, unknown option strings, mismatched operands, cells of the wrong type -/
 theorem no_panic (ω : Oracle) (p : Pool) (op : Op) (hp : Good p) (hapi : IsApi op) :
     (opEffect ω p op).isPanic = false := by
-  sorry
+  refine NoPanicLemmas.opEffect_np ω p op hp ?_
+  intro t k i v hop
+  subst hop
+  exact hapi
 
 /-- INVALID ⇒ ERROR: every request of a class the property names is answered with an error -/
 theorem invalid_is_err (ω : Oracle) (p : Pool) (op : Op) (hp : Good p)
-    (hinv : Spec.invalidRequest ω p op = true) : (opEffect ω p op).isErr = true := by
-  sorry
+    (hinv : Spec.invalidRequest ω p op = true) : (opEffect ω p op).isErr = true :=
+  NoPanicLemmas.opEffect_invalid_err ω p op hp hinv
 
 /-- ERROR ⇒ UNTOUCHED: an operation that returns an error leaves every live frame as it was
 (`step` produces a new pool only from a successful effect) -/
 theorem err_unchanged (ω : Oracle) (p : Pool) (op : Op) (ops : List Op) (e : String)
     (h : step ω p op = .err e) : run ω p (op :: ops) = run ω p ops := by
-  sorry
+  simp only [run, h]
 
 /-- Head / Tail / RowSlice / Shift accept every 64-bit count, bound and offset -/
 theorem counts_total (f : Frame) {n : Nat} (hr : f.RectN n) (hn : (n : Int) < 2 ^ 62) (c a b : Int) :
-    (f.head c).isOk = true ∧ (f.tail c).isOk = true ∧ (f.rowSlice a b).Rect ∧ (f.shift c).Rect := by
-  sorry
+    (f.head c).isOk = true ∧ (f.tail c).isOk = true ∧ (f.rowSlice a b).Rect ∧ (f.shift c).Rect :=
+  NoPanicLemmas.counts_total f hr hn c a b
 
 /-- the pinned code paths panic (findings D14, D15, D16, D17), as `decide` witnesses on the pinned models -/
 theorem pinned_head_panics :
